@@ -60,7 +60,7 @@ CLAIMED = {
         category="exploration",
         ref="DESIGN.md §5 C16",
         technique="deterministic simulation with a simulated clock (run-loop ticks): online no-spin monitor and bounded-liveness budget once the command stream has ended",
-        text="Bounded liveness: never more than 24 idle ticks in a row, session ends within 4*(instructions+commands)+64 ticks of the simulated clock, no panic when resuming at PC=0xFFFF / outside user space / on HALT. Sampling, not proof.",
+        text="Bounded liveness: never more than 24 idle ticks in a row, session ends within 4*(instructions+commands)+64 ticks of the simulated clock, no panic when resuming at PC=0xFFFF / outside user space / on HALT; sessions that leave the run loop altogether (a reader that loops, a command that loops) are cut by a wall-clock and memory guard and reported; 1 session in 50 also runs in the shipped binary with the whole script in --command and a standard input that is a directory, closed or /dev/null, and must end. Sampling, not proof.",
         note="Trusted: tick hook = one run-loop iteration; RefDbg for the instruction count.",
     ),
     "C14": dict(
@@ -74,7 +74,7 @@ CLAIMED = {
         category="exploration",
         ref="DESIGN.md §5 C20",
         technique="simulation of a reactive component on a simulated key device: exhaustive short key histories plus seeded long ones against a reference line editor after every key; the history file (the editor's only durable state) is real file I/O in a scratch cache directory with injected damage (blank line, invalid UTF-8, CRLF, no final newline, directory in its place, 1000+ lines); 1 run in 150 types its keys into the shipped binary on a real pseudo-terminal, paced by feedback, and compares every prompt redraw",
-        text="Every key history of length <=3 (quick) / <=4 (thorough) over a 14-key alphabet from an empty and a non-empty history is enumerated, plus 60k/4M seeded histories of up to 47 keys; after every key the real editor's line, cursor, history focus and end-of-line equal RefEditor's, the cursor stays inside the line, nothing panics; the real read() path returns the reference's commands and history. One third of the seeded runs build the terminal with the real constructor on a prepared (and for half of them damaged) history file and check the loaded list and the bytes appended; one fifth add a whole debugger session (--command first, then typed lines with history recall); 1 in 150 runs the shipped `lace debug` on a pseudo-terminal (crossterm decoding, raw mode, prompt redraw with line text and cursor column after every key, exit status, history file).",
+        text="Every key history of length <=3 (quick) / <=4 (thorough) over a 14-key alphabet from an empty and a non-empty history is enumerated, plus 60k/4M seeded histories of up to 47 keys; after every key the real editor's line, cursor, history focus and end-of-line equal RefEditor's, the cursor stays inside the line, nothing panics; the real read() path returns the reference's commands and history. One third of the seeded runs build the terminal with the real constructor on a prepared (and for half of them damaged) history file and check the loaded list and the bytes appended; one fifth add a whole debugger session (--command first, then typed lines with history recall); 1 in 150 runs the shipped `lace debug` on a pseudo-terminal (crossterm decoding, raw mode, prompt redraw with line text and cursor column after every key, exit status, history file; window widths 12-200 columns, several lines typed ahead in one write, a missing or impossible cache directory, a history file that cannot grow); 1 in 300 steps a program that reads keys through the debugger on the pseudo-terminal (program input between prompts).",
         note="Trusted: RefEditor (doc comments of terminal.rs, Vim word rules with adopted end-of-line corner); guarded constructors (with and without history file); XDG_CACHE_HOME pointed at a per-process scratch directory.",
     ),
     "C06": dict(
@@ -87,7 +87,7 @@ CLAIMED = {
     "C08": dict(
         category="fault_enumeration",
         ref="DESIGN.md §5 C08, §3.3",
-        technique="deterministic simulation with fault injection at the syscall seam: for each seeded program the single-fault space of `lace compile` is enumerated (assembly failure at every statement position; ENOSPC/EIO/EINTR/sticky/short write and a crash (SIGKILL) right before and right after every mutating file-system call; /dev/full; RLIMIT_FSIZE at every byte; uncreatable destinations) plus sampled double faults; for every fourth program two compile processes to one destination under a scheduler that grants their file-system calls one at a time (all 20 interleavings, plus seeded ones with a failing call)",
+        technique="deterministic simulation with fault injection at the syscall seam: for each seeded program the single-fault space of `lace compile` is enumerated (assembly failure at every statement position; ENOSPC/EIO/EINTR/sticky/short write and a crash (SIGKILL) right before and right after every mutating file-system call; /dev/full; RLIMIT_FSIZE at every byte; uncreatable destinations) plus sampled double faults; for every fourth program two compile processes to one destination under a scheduler that grants their file-system calls one at a time (all 20 interleavings, plus seeded ones with a failing call); the reader of standard output leaving after the first status line",
         text="For every sampled program (half with a planted emission failure at a random statement k) every single fault of the compile process is injected, by ordinal of mutating call measured on a fault-free run, and the all-or-nothing predicate over (exit status, destination before/after) is evaluated; destination pre-existing or absent. Complete over single faults per program, sampled over programs and double faults.",
         note="Trusted: faultfs.so sees every file-system call on the destination directory; kernel-level faults (/dev/full, RLIMIT_FSIZE) confirm independently of the shim. A crash has no exit status: after SIGKILL the destination must be the old state or the complete new file (old-or-new, the usual crash-consistency reading; power loss, i.e. loss of unsynced data, is not modelled).",
     ),
@@ -95,7 +95,7 @@ CLAIMED = {
         category="exploration",
         ref="DESIGN.md §5 C19, §3.4",
         technique="deterministic simulation of the long-lived watcher: seeded histories of file versions with torn reads, duplicated, coalesced and reverted events executed through the watch closure's call sequence on one thread; each re-check compared with the same text on a fresh thread (every 8th history: a fresh process); 1 history in 250 also drives the shipped `lace watch` process on a real directory, paced by feedback, against fresh `lace check` processes",
-        text="Histories of 2..14 re-checks (valid, failing in lexer/parser/backpatch/emission, duplicate labels, shifted labels, torn prefixes) on one thread with reset_state between them; every rendered result (origin, words or emission errors, spans, breakpoints, or the diagnostic text) equals a fresh assembly of the same text. The closure itself lives in the binary: for 1 history in 250 the shipped `lace watch` watches a scratch directory while the file is rewritten version by version, and the report it is left showing after each save must be the verdict of a fresh `lace check`. Sampling, not proof.",
+        text="Histories of 2..14 re-checks (valid, failing in lexer/parser/backpatch/emission, duplicate labels, shifted labels, torn prefixes) on one thread with reset_state between them; every rendered result (origin, words or emission errors, spans, breakpoints, or the diagnostic text) equals a fresh assembly of the same text. The closure itself lives in the binary: for 1 history in 250 the shipped `lace watch` watches a scratch directory while the file is rewritten version by version, and the report it is left showing after each save must be the verdict of a fresh `lace check` (also for same-length versions saved under one modification time, and after a version on which the assembler crashes, if the watcher survives it). Sampling, not proof.",
         note="Trusted: fresh thread = fresh process (all globals thread-local); the closure's five calls are re-stated in the harness for world C; the real closure, inotify and debouncer run only in the 1-in-250 real-watcher histories, whose oracle is eventually-equal within a guard and which count a mismatch only if it repeats.",
     ),
 }
